@@ -448,6 +448,25 @@ def add_docs(prog, rng, p_item=0.5):
     return n
 
 
+CFGS = ['#[cfg(feature = "vfx")]', '#[cfg(not(feature = "vfx"))]', '#[cfg(any())]', '#[cfg(all())]', '#[cfg(any(feature = "vfx", feature = "vfy"))]']
+
+
+def add_cfgs(prog, rng, p_item=0.3):
+    """Plain `#[cfg(..)]` on methods and impl blocks (the book's ICU4X-style optional features): the macro copies them onto the extern
+    functions it generates, so the expansion must type-check whichever way each condition evaluates (seed C09-g: one of the two wrapper
+    templates forgot them). Methods writing to a DiplomatWrite get them as often as the others. Returns the number of attributes."""
+    n = 0
+    for t in prog.types():
+        if t.methods and rng.random() < p_item / 3:
+            t.impl_attrs = getattr(t, "impl_attrs", []) + [rng.choice(CFGS)]
+            n += 1
+        for m in t.methods:
+            if rng.random() < (0.6 if any(pt[0] == "write" for _, pt in m.params) else p_item):
+                m.attrs.append(rng.choice(CFGS))
+                n += 1
+    return n
+
+
 def add_demo_attrs(prog, rng, generate=True):
     """#[diplomat::demo(...)] attributes (only demo_gen reads them): generate on methods, input(label / default_value) on struct fields,
     custom_func on types, default_constructor on opaque constructors."""
